@@ -87,7 +87,8 @@ Force(x, y, angle) ==
          dig == Fixed /\ y[1] \in DigitChars
      IN IF kw1 /\ (kw2 \/ dig) THEN TRUE
         ELSE IF Fixed /\ Last(x) = "/" /\ y[1] \in {"/", "*"} THEN TRUE
-        ELSE IF Fixed4 /\ ((Last(x) = "/" /\ y[1] = "+" /\ Lang = "D") \/ (x = <<"<">> /\ y[1] = "#")) THEN TRUE
+        ELSE IF Fixed4 /\ ((Last(x) = "/" /\ y[1] = "+" /\ Lang = "D") \/ (x = <<"<">> /\ y[1] = "#")
+                          \/ (Lang = "PAWN" /\ ((Last(x) \in {"!", "\\"} /\ y[1] = "\"") \/ (x = <<"%">> /\ y[1] \in DigitChars)))) THEN TRUE
         ELSE IF Fixed2 /\ IsNum(x) /\ y[1] \in {"+", "-"} /\ Last(x) \in {"e", "E", "p", "P"} THEN TRUE
         ELSE IF Fixed3 /\ y[1] = "." /\ IsNum(x) /\ ~(Lang = "D" /\ y = <<".", ".">>) THEN TRUE
         ELSE IF Fixed3 /\ Last(x) = "." /\ y[1] \in DigitChars /\ (Len(x) = 1 \/ IsNum(x)) THEN TRUE
